@@ -32,7 +32,7 @@ RULE = (
     "distinct_nontrivial = distinct SHA-256 of the IPC event sequence (who reached which synchronisation point in which order) among the multi-core runs"
 )
 FAULT_KEYS = ["locus_subset_empty", "policy_uniform", "policy_sticky", "policy_starve_writer", "policy_starve_main", "policy_eager_main", "policy_last_first", "schedule_choices", "multi_core_runs", "cores_gt_loci", "locus_order", "locus_subset", "region_single", "prior_work", "proc_rng_init",
-              "clock_jump", "small_stdout_buffer", "buffer_full_write", "failing_locus_injected", "failing_locus_real", "fork_unflushed"]
+              "clock_jump", "small_stdout_buffer", "buffer_full_write", "failing_locus_injected", "failing_locus_real", "failing_locus_io_error", "fork_unflushed"]
 PROBE_KEYS = ["runs_total", "multi_core_runs", "failing_locus_in_worker", "failing_locus_single_core", "empty_block", "records_compared",
               "header_compared", "torn_tail_on_failure", "library_fits", "library_histories", "programs_assemble", "programs_call", "programs_call_exact", "programs_call_pedigree"]
 OPTIONAL_PROBES = {"quick": ("torn_tail_on_failure",), "thorough": ()}
@@ -125,8 +125,8 @@ def gen_config(rng, tier, index=0):
     fail_batch = rng.random() < 0.35
     cfg["fail"] = None
     if fail_batch:
-        cfg["fail"] = {"kind": rng.choice(["injected", "injected", "real"]), "pos": rng.random()}
-        if use_simple or program != "assemble":
+        cfg["fail"] = {"kind": rng.choice(["injected", "injected", "real", "io", "io"]), "pos": rng.random(), "exc": rng.choice(["OSError", "OSError", "ValueError", "EOFError"])}
+        if (use_simple or program != "assemble") and cfg["fail"]["kind"] == "real":
             cfg["fail"]["kind"] = "injected"
     for v in range(n_var):
         cfg["variants"].append({
@@ -501,6 +501,7 @@ def run_batch(ctx, b):
         # failing locus
         fail_key = None
         before = None
+        io_fault = None
         dsv = ds
         if var["fail"] and cfg["fail"] and region is None and units:
             fpos = min(len(units) - 1, int(cfg["fail"]["pos"] * len(units)))
@@ -512,6 +513,11 @@ def run_batch(ctx, b):
                 fail_key = unit_keys[u_bad]
                 dsv = real_bad_dataset(b, ds, u_bad)
                 ctx.counters.inc("failing_locus_real")
+            elif cfg["fail"]["kind"] == "io":
+                # an I/O error while the alignments of that locus are read (deep inside the worker: the program's own
+                # exception wrapping - SampleAssemblyError from OSError, LocusAssemblyError from that - is exercised)
+                io_fault = (fail_key, {"OSError": OSError, "ValueError": ValueError, "EOFError": EOFError}[cfg["fail"].get("exc", "OSError")])
+                ctx.counters.inc("failing_locus_io_error")
             else:
                 def before(locus, _k=fail_key):
                     if locus.name == _k or getattr(locus, "name", None) == _k:
@@ -525,7 +531,18 @@ def run_batch(ctx, b):
             argv = b.argv(program, dsv, cores, hapvcf=hv2)
         if var["capacity"]:
             ctx.counters.inc("small_stdout_buffer")
-        r = b.run(program, argv, day, seed_rng=var["proc_rng_init"], capacity=var["capacity"], before_locus=before, policy=var.get("policy", "uniform"))
+        bc = bootstrap()["baseclass"]
+        real_erv = bc.extract_read_variants
+        if io_fault is not None:
+            def erv(locus, *a, _k=io_fault[0], _e=io_fault[1], **kw):
+                if getattr(locus, "name", None) == _k:
+                    raise _e("truncated file")
+                return real_erv(locus, *a, **kw)
+            bc.extract_read_variants = erv
+        try:
+            r = b.run(program, argv, day, seed_rng=var["proc_rng_init"], capacity=var["capacity"], before_locus=before, policy=var.get("policy", "uniform"))
+        finally:
+            bc.extract_read_variants = real_erv
         if multi_core(var):
             ctx.counters.inc("policy_" + var.get("policy", "uniform"))
         ctx.counters.inc("runs_total")
